@@ -48,6 +48,16 @@ Definition dec_wrapmode (s : str) : wrapmode :=
   else if str_eqb s (s2l "nopromote") then WMnopromote
   else WMdefault.
 
+Definition dec_dlib (s : str) : dlib :=
+  if str_eqb s (s2l "static") then DStatic else if str_eqb s (s2l "both") then DBoth else DShared.
+Definition dec_odlib (s : str) : option dlib := match s with [45] => None | _ => Some (dec_dlib s) end.
+(* an override inside a subproject: <N|T|F><dependency> *)
+Definition dec_sover (s : str) : option bool * dep :=
+  match s with
+  | c :: r => (dec_obool [c], dec_dep r)
+  | [] => (None, NotFound)
+  end.
+
 Definition dec_entry (s : str) : str * option str :=
   match split_on 3 s with
   | [k] => (k, None)
@@ -69,14 +79,14 @@ Definition parse_item (p : parsed) (it : str) : parsed :=
   | [87] :: n :: es =>                                      (* W *)
       mkParsed (p_sys p) (p_wraps p ++ [mk_wrapinfo n (map dec_entry es)]) (p_subs p) (p_ops p)
   | [68] :: n :: f :: ov :: vs :: _ =>                      (* D *)
-      let ovs := map (fun s => let '(a, b) := pair_of s in (a, dec_dep b)) (items ov) in
+      let ovs := map (fun s => let '(a, b) := pair_of s in let '(sk, d) := dec_sover b in (a, sk, d)) (items ov) in
       let vars := map (fun s => let '(a, b) := pair_of s in (a, dec_var b)) (items vs) in
       mkParsed (p_sys p) (p_wraps p) (p_subs p ++ [(n, mkSub (is_T f) ovs vars)]) (p_ops p)
-  | [79] :: n :: d :: _ =>                                  (* O *)
-      mkParsed (p_sys p) (p_wraps p) (p_subs p) (p_ops p ++ [OpOverride n (dec_dep d)])
-  | [80] :: s :: r :: _ =>                                  (* P *)
-      mkParsed (p_sys p) (p_wraps p) (p_subs p) (p_ops p ++ [OpSubproject s (is_T r)])
-  | [76] :: ns :: r :: vs :: al :: fb :: _ =>               (* L *)
+  | [79] :: n :: sk :: d :: _ =>                            (* O *)
+      mkParsed (p_sys p) (p_wraps p) (p_subs p) (p_ops p ++ [OpOverride n (dec_obool sk) (dec_dep d)])
+  | [80] :: s :: r :: dl :: _ =>                            (* P *)
+      mkParsed (p_sys p) (p_wraps p) (p_subs p) (p_ops p ++ [OpSubproject s (is_T r) (dec_odlib dl)])
+  | [76] :: ns :: r :: vs :: al :: fb :: sk :: dl :: _ =>   (* L *)
       let fbv := match fb with
                  | 61 :: rest => Some (items rest)          (* =a<2>b *)
                  | _ => None
@@ -84,7 +94,7 @@ Definition parse_item (p : parsed) (it : str) : parsed :=
       (* dependency('') : the empty name is written as a single code point 4 *)
       let names := map (fun n => if str_eqb n [4] then [] else n) (items ns) in
       mkParsed (p_sys p) (p_wraps p) (p_subs p)
-               (p_ops p ++ [OpLookup names (mkKw (is_T r) (items vs) (dec_obool al) fbv)])
+               (p_ops p ++ [OpLookup names (mkKw (is_T r) (items vs) (dec_obool al) fbv (dec_obool sk) (dec_odlib dl))])
   | _ => p
   end.
 
@@ -99,10 +109,11 @@ Definition render_outcome (o : outcome) : str :=
 
 Definition run_prog (args : list str) : str :=
   match args with
-  | wm :: fff :: its =>
+  | wm :: fff :: dl :: sdl :: its =>
       let p := fold_left parse_item its (mkParsed [] [] [] []) in
       let w := mkWorld (p_sys p) (p_wraps p) (p_subs p) in
-      let o := mkOpts (dec_wrapmode wm) (items fff) in
+      let o := mkOpts (dec_wrapmode wm) (items fff) (dec_dlib dl)
+                      (map (fun s => let '(a, b) := pair_of s in (a, dec_dlib b)) (items sdl)) in
       let '(outs, ok) := run_ops w o st0 (p_ops p) in
       join [1] (map render_outcome outs ++ [if ok then s2l "OK" else s2l "ERR"])
   | _ => s2l "?"
@@ -113,13 +124,13 @@ Definition run_prog (args : list str) : str :=
 Fixpoint first_policy (w : world) (o : opts) (st : state) (ops : list op) : str :=
   match ops with
   | [] => [45]
-  | OpOverride n d :: r =>
-      match add_override (s_over st) n d true with
+  | OpOverride n sk d :: r =>
+      match override_dep (s_over st) n sk (o_deflib o) d with
       | Ok over' => first_policy w o (mkState over' (s_cache st) (s_subs st)) r
       | Err => [45]
       end
-  | OpSubproject s req :: r =>
-      match do_subproject w st s req with
+  | OpSubproject s req dl :: r =>
+      match do_subproject w st s req (eff_dl o s None dl) with
       | Ok st' => first_policy w o st' r
       | Err => [45]
       end
@@ -132,9 +143,12 @@ Fixpoint first_policy (w : world) (o : opts) (st : state) (ops : list op) : str 
 
 Definition run_policy (args : list str) : str :=
   match args with
-  | wm :: fff :: its =>
+  | wm :: fff :: dl :: sdl :: its =>
       let p := fold_left parse_item its (mkParsed [] [] [] []) in
-      first_policy (mkWorld (p_sys p) (p_wraps p) (p_subs p)) (mkOpts (dec_wrapmode wm) (items fff)) st0 (p_ops p)
+      first_policy (mkWorld (p_sys p) (p_wraps p) (p_subs p))
+                   (mkOpts (dec_wrapmode wm) (items fff) (dec_dlib dl)
+                           (map (fun s => let '(a, b) := pair_of s in (a, dec_dlib b)) (items sdl)))
+                   st0 (p_ops p)
   | _ => s2l "?"
   end.
 
